@@ -538,7 +538,7 @@ class AbstractInventory(ABC):
             )
         sub_contents = other.contents.copy()
         sub_contents.update(
-            (nuclide, number * -1.0) for nuclide, number in sub_contents.items()
+            (nuclide, -number) for nuclide, number in sub_contents.items()
         )
         new_contents = add_dictionaries(self.contents, sub_contents)
         return self.__class__(new_contents, "num", False, self.decay_data)
